@@ -126,6 +126,17 @@ def _mk_inplace(mode):
         h.ensure("rotate-bad-arg-leaves-point", AND(e is not None, EQ(a[0], ax), EQ(a[1], ay)))
 
 
+@proof("L0.point-abs", "C14", funcs=["polygon.Point2D.__abs__"], props=["C14", "C18", "C17"])
+def _point_abs(h):
+    """abs(p) for float-mode coordinates: non-negative and squares to x^2 + y^2 (math.sqrt as the real square root, A4)."""
+    x, y = h.reals("x y", "F")
+    r = abs(Point2D(x, y))
+    if h.sym:
+        h.ensure("euclidean-norm", AND(r >= 0, EQ(r * r, x * x + y * y)))
+    else:
+        h.ensure("euclidean-norm", r >= 0 and abs(r * r - (x * x + y * y)) <= 1e-9 * (1 + x * x + y * y))
+
+
 @proof("L0.point-eq", "C07", funcs=["polygon.Point2D.__eq__"], props=["C07", "C12"])
 def _point_eq(h):
     ax, ay, bx, by = h.reals("ax ay bx by", "F")
